@@ -76,7 +76,7 @@ def conds(tier):
     for (m, n, nw) in plan:
         ws = [P("w%d" % j, "int", 0, nw) for j in range(1, n + 1)]
         sh = ["t"]
-        if (nw ** n) * (m ** n) > 1500:
+        if (nw ** n) * (m ** n) > 500:
             sh.append("w1")
         if (nw ** n) * (m ** n) > 6000:
             sh.append("lp1")
